@@ -1,19 +1,19 @@
 SPECIFICATION GSpec
 CONSTANTS
   Params = {"P1", "P2"}
-  Vals = {"v0", "v1", "v2"}
+  Vals = {"v0", "v1"}
   NChunks = 2
-  AutoChoices = {{"P1"}, {"P1", "P2"}}
-  HwChoices = {{"P2"}, {"P1", "P2"}}
-  NoDefChoices = {{"P1"}, {"P2"}}
+  AutoChoices = {{"P1"}}
+  HwChoices = {{"P2"}}
+  NoDefChoices = {{"P1"}}
   CfgVals = {"v1"}
-  Faults = {"crash"}
-  Corruptions = {"wipe", "extra", "bad"}
+  Faults = {}
+  Corruptions = {"wipe"}
   Dev = {"BelieveEarly"}
   Depth = 12
-  MaxChanges = 2
+  MaxChanges = 1
   MaxSaves = 1
-  MaxFaults = 1
+  MaxFaults = 0
   MaxStarts = 2
   MaxCorrupt = 1
   MaxOther = 2
